@@ -12,6 +12,10 @@ class Unsupported(Exception):
     pass
 
 
+class OutOfRange(Unsupported):
+    """the analysed code subscripts a sequence outside its bounds on this abstract state"""
+
+
 class Ret(Exception):
     def __init__(self, v):
         self.v = v
@@ -32,6 +36,16 @@ class Interp:
     # ---- functions ------------------------------------------------------------------------------
     def call_fn(self, f, args):
         env = {}
+        for prm, a in zip(f.params, args):
+            env[prm['id']] = a
+        try:
+            self.stmt(f.body, env)
+        except Ret as r:
+            return r.v
+        return None
+
+    def call_fn_env(self, f, args, env0):
+        env = dict(env0)
         for prm, a in zip(f.params, args):
             env[prm['id']] = a
         try:
@@ -92,8 +106,55 @@ class Interp:
                 pass
         elif k == 'break':
             raise _Break()
+        elif k == 'continue':
+            raise _Continue()
+        elif k == 'forrange':
+            seq = self.expr(s['range'], env)
+            items = self.iterate(seq)
+            v = s['var']
+            try:
+                for it in items:
+                    env[v['id']] = it
+                    for b, val in zip(v.get('bindings', []), self.unpack(it, len(v.get('bindings', [])))):
+                        env[b['id']] = val
+                    try:
+                        self.stmt(s['body'], env)
+                    except _Continue:
+                        pass
+            except _Break:
+                pass
+        elif k == 'for':
+            self.stmt(s.get('init'), env)
+            n = 0
+            try:
+                while s.get('c') is None or self.truth(self.expr(s['c'], env)):
+                    n += 1
+                    if n > 64:
+                        raise Unsupported('loop bound exceeded')
+                    try:
+                        self.stmt(s['body'], env)
+                    except _Continue:
+                        pass
+                    if s.get('inc') is not None:
+                        self.expr(s['inc'], env)
+            except _Break:
+                pass
         else:
             raise Unsupported('statement ' + k)
+
+    def iterate(self, seq):
+        if isinstance(seq, dict) and not isinstance(seq, Obj):
+            return [Obj(first=k, second=v) for k, v in seq.items()]
+        if isinstance(seq, (list, tuple, str)):
+            return list(seq)
+        raise Unsupported('iteration over ' + type(seq).__name__)
+
+    def unpack(self, it, n):
+        if isinstance(it, Obj) and 'first' in it and n == 2:
+            return [it['first'], it['second']]
+        if isinstance(it, (list, tuple)):
+            return list(it)
+        return [None] * n
 
     def truth(self, v):
         if isinstance(v, Obj):
@@ -111,6 +172,10 @@ class Interp:
             return chr(e['v'])
         if k == 'nullptr':
             return None
+        if k == 'this':
+            if 'this' in env:
+                return env['this']
+            raise Unsupported('this is not modelled')
         if k == 'defaultarg':
             return self.expr(e['e'], env)
         if k == 'ref':
@@ -139,6 +204,11 @@ class Interp:
                 return -self.expr(e['e'], env)
             if op == '*':
                 return self.expr(e['e'], env)
+            if op in ('++', '--'):
+                cur = self.expr(e['e'], env)
+                new = (cur or 0) + (1 if op == '++' else -1)
+                self.store(e['e'], new, env)
+                return cur if e.get('postfix') else new
             raise Unsupported('unary ' + op)
         if k == 'bin':
             op = e['op']
@@ -154,6 +224,15 @@ class Interp:
             v = self.expr(e['r'], env)
             self.store(e['l'], v, env)
             return v
+        if k == 'cassign':
+            cur = self.expr(e['l'], env)
+            v = self.binop(e['op'][:-1], cur, self.expr(e['r'], env))
+            self.store(e['l'], v, env)
+            return v
+        if k == 'index':
+            b = self.expr(e['base'], env)
+            i = self.expr(e['i'], env)
+            return self.index(b, i, SX.show(e['base']))
         if k == 'opcall':
             op = e['op']
             key = 'op:' + op + ':' + SX.short_type(e.get('at', ''))
@@ -168,11 +247,27 @@ class Interp:
                 return v
             if op in ('*', '->') and len(e['args']) == 1:
                 return self.expr(e['args'][0], env)
+            if op in ('++', '--') and e['args']:
+                cur = self.expr(e['args'][0], env)
+                new = (cur or 0) + (1 if op == '++' else -1)
+                self.store(e['args'][0], new, env)
+                return new
+            if op in ('+=', '-=') and len(e['args']) == 2:
+                cur = self.expr(e['args'][0], env)
+                v = self.binop(op[0], cur, self.expr(e['args'][1], env))
+                self.store(e['args'][0], v, env)
+                return v
+            if op == '+' and len(e['args']) == 2:
+                return self.binop('+', self.expr(e['args'][0], env), self.expr(e['args'][1], env))
             raise Unsupported('operator ' + op + ' on ' + e.get('at', ''))
         if k in ('call', 'mcall'):
             name = SX.short(SX.callee(e))
             if name in self.models:
                 return self.models[name](self, e, env)
+            if k == 'mcall':
+                r = self.container_call(e, name, env)
+                if r is not _NOPE:
+                    return r
             fs = [f for f in self.p.resolve(e) if f.body]
             if len(fs) == 1:
                 args = [self.expr(a, env) for a in SX.real_args(e)]
@@ -189,6 +284,12 @@ class Interp:
                 rec = self.p.facts.records.get(e['type'])
                 if rec:
                     return self.default_struct(rec, env)
+                if e['type'].startswith('std::string'):
+                    return ''
+                if e['type'].startswith('std::vector'):
+                    return []
+                if 'map<' in e['type']:
+                    return {}
             raise Unsupported('construct ' + e['type'])
         if k == 'initlist':
             rec = self.p.facts.records.get(e['type'])
@@ -206,6 +307,56 @@ class Interp:
             return 0
         raise Unsupported('expression ' + k + ': ' + SX.show(e)[:60])
 
+    def index(self, b, i, what):
+        if isinstance(b, dict) and not isinstance(b, Obj):
+            if i not in b:
+                b[i] = self.new_elem(what)
+            return b[i]
+        if isinstance(b, (list, str)):
+            if isinstance(i, int) and 0 <= i < len(b):
+                return b[i]
+            self.effects.append(('out-of-range', what, i))
+            raise OutOfRange('subscript out of range: %s[%s]' % (what, i))
+        raise Unsupported('subscript of ' + what)
+
+    def new_elem(self, what):
+        return {}
+
+    def container_call(self, e, name, env):
+        o = self.expr(e.get('obj'), env)
+        a = [self.expr(x, env) for x in SX.real_args(e)]
+        if isinstance(o, (list, str, dict)) and not isinstance(o, Obj):
+            if name == 'size':
+                return len(o)
+            if name == 'empty':
+                return len(o) == 0
+            if name == 'push_back' and isinstance(o, list):
+                o.append(a[0])
+                return None
+            if name == 'back' and isinstance(o, list) and o:
+                return o[-1]
+            if name == 'pop_back' and isinstance(o, list) and o:
+                o.pop()
+                return None
+            if name == 'push_back' and isinstance(o, str):
+                self.store(e['obj'], o + a[0], env)
+                return None
+            if name in ('begin', 'end', 'cbegin', 'cend') and isinstance(o, (str, list)):
+                return ('iter', 0 if 'begin' in name else len(o))
+            if name == 'insert' and isinstance(o, str) and len(a) == 2 and isinstance(a[0], tuple) and a[0][0] == 'iter':
+                self.store(e['obj'], o[:a[0][1]] + a[1] + o[a[0][1]:], env)
+                return None
+            if name == 'insert' and isinstance(o, list) and len(a) == 2 and isinstance(a[0], tuple) and a[0][0] == 'iter':
+                o.insert(a[0][1], a[1])
+                return None
+            if name in ('find', 'count') and isinstance(o, dict):
+                return (a[0] in o) if name == 'count' else ('it', a[0] in o)
+            if name == 'clear':
+                if isinstance(o, (list, dict)):
+                    o.clear()
+                    return None
+        return _NOPE
+
     def default_struct(self, rec, env):
         o = Obj()
         for f in rec['fields']:
@@ -222,6 +373,17 @@ class Interp:
         if l['k'] == 'ref':
             env[l['id']] = v
             return
+        if l['k'] == 'index':
+            b = self.expr(l['base'], env)
+            i = self.expr(l['i'], env)
+            if isinstance(b, dict) and not isinstance(b, Obj):
+                b[i] = v
+                self.effects.append(('store-elem', SX.show(l['base']), i, v))
+                return
+            if isinstance(b, list) and isinstance(i, int) and 0 <= i < len(b):
+                b[i] = v
+                return
+            raise Unsupported('store to element of ' + SX.show(l['base']))
         if l['k'] == 'member':
             b = self.expr(l['base'], env)
             if isinstance(b, Obj):
@@ -255,3 +417,10 @@ class Interp:
 
 class _Break(Exception):
     pass
+
+
+class _Continue(Exception):
+    pass
+
+
+_NOPE = object()
